@@ -16,9 +16,9 @@ Checks (one per clause of the statement, so that a known finding can be listed p
   C19/pile-fits-available     literal "the same way": rows never exceed the available rows, focus item stays visible
   C19/pile-children           get_rows_sizes()/render(): what the children are handed and where they land
   C19/pile-packed-fixed-child a ('pack', FIXED-only widget) item in a box Pile
-  C19/zero-amounts            zero weights / zero given sizes (outside the statement, in the quantifier): weaker demands
+  C19/zero-amounts            zero weights / zero given sizes (outside the statement, in the quantifier): weaker demands  [INFORMATIONAL]
   C19/padding-values, C19/filler-values, C19/overlay-values, C19/overlay-render   the decoration widgets through their public methods + render
-  C19/padding-pack-min-width  Padding(width='pack', min_width=m): documented minimum honoured
+  C19/padding-pack-min-width  Padding(width='pack', min_width=m): documented minimum honoured  [INFORMATIONAL: a reading, see below]
   C19/gridflow-layout         every cell at the configured cell width, reading order
 """
 from __future__ import annotations
